@@ -22,9 +22,9 @@ def load_values_and_dt(ffp):
     # This is broken in numpy version 1.19 since string converter switches to complex
     try:
         data = np.genfromtxt(ffp, skip_header=1, delimiter=",", names=True, usecols=0)
-        dt = data.dtype.names[0].split("_")[-1]
-        dt = "." + dt[1:]
-        dt = float(dt)
+        # the sanitised column name drops the decimal point, so dt >= 1 cannot be recovered from it: read the header
+        with open(ffp) as ifile:
+            dt = float(ifile.read().splitlines()[1].split()[1])
     except TypeError:  # needed for numpy==1.19
         data = np.genfromtxt(ffp, skip_header=2, delimiter=",", usecols=0)
         with open(ffp) as ifile:
